@@ -121,6 +121,11 @@ func resolveLocal(info *types.Info, body ast.Node, e ast.Expr) ast.Expr {
 		}
 		def := localDef(info, body, obj)
 		if def == nil {
+			// a parameter of an extracted helper with one call site stands for the argument
+			if d2 := derefStep(info, id); d2 != nil {
+				e = d2
+				continue
+			}
 			return e
 		}
 		e = def
